@@ -699,10 +699,9 @@ theorem WF.contDel {g g' : Graph} (h : WF g) {c : Cont} {key : Key} (hres : cont
     · cases hres
     · split at hres
       all_goals first
-        | (cases hres; exact h.deleteAll _)
+        | (cases hres; exact h.deleteObjs _)
         | (split at hres
            all_goals first
-             | (cases hres; first | exact h.deleteAll _ | exact h)
              | exact h.h5Delete hres
              | cases hres)
 
